@@ -22,7 +22,10 @@ def run_one(args):
         p = subprocess.run([sys.executable, "-m", "vh.rt.worker", sp, op], env=env, capture_output=True, text=True,
                            timeout=sc.get("watchdog", 15) + 20)
         if os.path.exists(op):
-            return json.load(open(op))
+            try:
+                return json.load(open(op))
+            except ValueError as e:
+                return {"log": [], "crashed": "unreadable worker output: %s" % e, "hung": True}
         return {"log": [], "crashed": p.stderr[-1500:], "hung": True}
     except subprocess.TimeoutExpired:
         return {"log": [], "crashed": "worker timeout", "hung": True}
